@@ -302,6 +302,7 @@ func (IndexScenario) Execute(sim *sched.Sim, ci interface{}, prop string, race b
 		sim.Optional[p] = true
 	}
 	sim.RoleOf = roleOf
+	sim.Canon = newCanon().canon
 	dir := tempDBDir()
 	defer os.RemoveAll(dir)
 	db := openBadger(dir)
